@@ -31,7 +31,7 @@ func (e *Engine) GenUnit(fn *ssa.Function) (u *Unit) {
 			u.Unsupported = append(u.Unsupported, fmt.Sprintf("generator panic: %v", r))
 		}
 	}()
-	if fc != nil && fc.Flags["safety"] == "on" {
+	if fc != nil && fc.Flags["safety"] == "on" || e.ForceSafety {
 		g.safety = true
 	}
 	if fc != nil {
@@ -66,6 +66,12 @@ func (e *Engine) GenUnit(fn *ssa.Function) (u *Unit) {
 	for i, fv := range fn.FreeVars {
 		if stableCaptured(fn, i) {
 			g.protectCell(g.vals[fv], fv.Type().Underlying().(*types.Pointer).Elem(), true) // assigned once before capture: no callee can change it
+		}
+	}
+	if g.safety && fn.Signature.Recv() != nil && len(argTerms) > 0 {
+		if _, isPtr := fn.Signature.Recv().Type().Underlying().(*types.Pointer); isPtr {
+			// panic-freedom is modular: a method may assume its receiver, every call site proves it (safe/nil(receiver ...))
+			g.assume(fmt.Sprintf("(not (= %s 0))", argTerms[0]))
 		}
 	}
 	g.findSharedCells()
